@@ -2,7 +2,9 @@
 (***************************************************************************)
 (* C10 - data sufficiency verdicts of the daily / billing / hourly data    *)
 (* classes, on integers.                                                   *)
-(*  in = [cls, role, electric, negatives, start, span, omiss, tmiss]       *)
+(*  in = [cls, role, electric, negatives, start, span, omiss, tmiss,       *)
+(*        lead, trail, mcase, empty]   empty: "none" | "usage" | "temp" -   *)
+(*        the whole usage / temperature column is missing                  *)
 (*     cls in {"daily", "billing", "hourly"}, role in {"baseline",         *)
 (*     "reporting"}; start = <<y, m, d>>; span = number of local days;     *)
 (*     omiss / tmiss: increasing sequences of day offsets (0-based, never  *)
@@ -93,7 +95,15 @@ EdgeClauses(in, out) ==
           /\ Set(out.dqSeries) \cap CoverageNames = CovSet(in, in.span - 1)
           /\ Set(out.dq) \cap CoverageNames \in {CovSet(in, in.span - 1)} \cup (IF in.trail > 0 THEN {CovSet(in, in.span)} ELSE {})>>,
      <<"WarningsNeverInTheVerdict", out.res = "ok" => Set(out.dq) \cap WarningOnly = {}>> >>
+\* all usage or all temperature missing: "no data at all" is a criterion of its own; usage is optional for reporting data
+NoData == P \o "no_data"
+EmptyClauses(in, out) ==
+  << <<"WellFormedInputAccepted", out.res = "ok">>,
+     <<"NoDataAtAllReported", (out.res = "ok" /\ (in.empty = "temp" \/ IsBase(in))) => NoData \in Set(out.dq)>>,
+     <<"UsageIsOptionalForReportingData", (out.res = "ok" /\ in.empty = "usage" /\ ~IsBase(in)) => Set(out.dq) \ WarningOnly = {}>>,
+     <<"WarningsNeverInTheVerdict", out.res = "ok" => Set(out.dq) \cap (WarningOnly \ {P \o "offcycle_reads_in_billing_monthly_data"}) = {}>> >>
 Clauses(in, out) ==
+  IF in.empty # "none" THEN EmptyClauses(in, out) ELSE
   IF Edge(in) THEN EdgeClauses(in, out) ELSE
   << <<"WellFormedInputAccepted", out.res = "ok">>,
      <<"EveryViolatedCriterionReported", out.res = "ok" => Must(in) \subseteq Set(out.dq)>>,
